@@ -203,6 +203,16 @@ def _run(ctx):
             params = {}
         r1 = progcheck.run_mode(ctx, "api", n)
         pc = {"ran": True, "mode": "api", "programs": n, "result": str(r1)[:300]}
+        if broken and not ctx.violations and "seed" in params:
+            # a table theorem broke and neither the row replay nor the first batch of programs shows a
+            # disagreement between the two APIs: search harder (more programs, further seeds) before
+            # falling back to no-failing-input-found
+            pc["search_after_broken_theorem"] = []
+            for k in range(1, 5):
+                rk = progcheck.run_mode(ctx, "api", 6000, seed=ctx.seed * 7919 + k)
+                pc["search_after_broken_theorem"].append({"seed": ctx.seed * 7919 + k, "programs": 6000, "fail": (rk or {}).get("fail")})
+                if ctx.violations:
+                    break
         if not quick and "variant" in params:
             r2 = progcheck.run_mode(ctx, "api", n, variant="cache")
             pc["cache_variant"] = str(r2)[:300]
@@ -245,7 +255,7 @@ def _run(ctx):
             ls = sorted(thm_lines.get(thm, ()))
             if not any(l in bad_lines for l in ls):
                 unexplained[thm] = {"rows": tags[:8], "calls_replayed_without_disagreement": ls[:12]}
-        if unexplained or not bad:
+        if (unexplained or not bad) and not ctx.violations:   # a failing program found by the search above is the replay
             extra = {"offending_rows": rows, "no_failing_call_for": unexplained}
             if tr_err:
                 extra["translator"] = tr_err
